@@ -124,6 +124,7 @@ def build(scn, signer, halg, opts=None, doc=None):
         subpub = list(hostpub.subkeys.values())[0]
         bsig = [s for s in sub._signatures if s.type == SignatureType.Subkey_Binding][0]
         out['verifier'] = hostpub
+        out['host_name'] = signer
         out['_keep'] += (host, hostpub, sub)
         if scn in ('subbind-enc', 'subbind-sign'):
             out.update(sig=bsig, verify_subject=subpub, ref_subject={'key': pbody, 'subkey': sbody}, want_type=0x18)
